@@ -587,6 +587,7 @@ func c20More(p *load.Prog, r *oblig.Run) {
 		}
 	}
 	c20TooOld(p, r)
+	c20NoEarlyExit(p, r)
 	cb := p.Method(load.PkgRoot, "FamilyNode", "childrenBornBeforeParentsWarnings")
 	ctor := p.Func(load.PkgRoot, "NewChildBornBeforeParentWarning")
 	if cb == nil || ctor == nil {
@@ -974,5 +975,57 @@ func c20TooOld(p *load.Prog, r *oblig.Run) {
 			}
 		}
 		o.OK("the guard tests the result of " + load.FuncName(tested[0]) + ", which Age computes the age from")
+	}
+}
+
+// c20NoEarlyExit (R20.g): the loops of the warning producers examine every
+// element - a loop is only left through its own header (range exhausted), never
+// by a break or a return from inside its body. "Exactly when the facts warrant
+// it" fails as soon as the search stops at the first candidate.
+func c20NoEarlyExit(p *load.Prog, r *oblig.Run) {
+	r.Rule("R20.g", "the loops of the warning producers are left only when their range is exhausted (no break, no return from inside)", 8)
+	var fns []*ssa.Function
+	for _, fn := range p.Repo {
+		if pkgPathOf(fn) == load.PkgRoot && fn.Synthetic == "" && len(fn.Blocks) > 0 && fn.Signature.Recv() != nil && strings.HasSuffix(fn.Name(), "Warnings") && fn.Name() != "Warnings" {
+			fns = append(fns, fn)
+		}
+	}
+	sort.Slice(fns, func(i, j int) bool { return fns[i].String() < fns[j].String() })
+	for _, fn := range fns {
+		for hi, h := range loopHeaders(fn) {
+			key := fmt.Sprintf("loop #%d in %s", hi+1, load.FuncName(fn))
+			pos := p.Pos(fn.Pos())
+			for _, ins := range h.Instrs {
+				if ins.Pos().IsValid() {
+					pos = p.Pos(ins.Pos())
+					break
+				}
+			}
+			o := r.Add("R20.g", key, pos, "exits of the loop")
+			// natural loop body: blocks dominated by h that can reach h
+			bad := ""
+			for _, b := range fn.Blocks {
+				if b == h || !loopBlock(b, h) {
+					continue
+				}
+				for _, sx := range b.Succs {
+					if sx != h && !loopBlock(sx, h) {
+						// an edge that leaves the loop from inside the body
+						line := 0
+						for _, ins := range b.Instrs {
+							if ins.Pos().IsValid() {
+								line = p.Fset.Position(ins.Pos()).Line
+							}
+						}
+						bad = fmt.Sprintf("the loop is left from inside its body (near line %d) before its range is exhausted", line)
+					}
+				}
+			}
+			if bad != "" {
+				o.Fail(bad + ": the elements after that point are never examined, so a warning the facts warrant (an out-of-order pair that is not adjacent, a sibling listed after an unparsable one) is not reported")
+			} else {
+				o.OK("left only through its header")
+			}
+		}
 	}
 }
